@@ -39,11 +39,23 @@ def exc_name(e):
 # ---------------------------------------------------------------------------------------------
 # WCS families
 # ---------------------------------------------------------------------------------------------
-def family_wcs(kind, nd):
-    """FITS WCS of a named family with nd pixel axes (pixel order = reverse array order)."""
+def family_wcs(kind, nd, shape=None):
+    """WCS of a named family with nd pixel axes (pixel order = reverse array order)."""
     from astropy.wcs import WCS
     if kind == "lin":
         return lin_wcs(nd)
+    if kind == "gwcs":
+        # a lookup-table gWCS: one Quantity table per pixel axis (needs the array shape)
+        import astropy.units as u
+        from ndcube.extra_coords.table_coord import QuantityTableCoordinate
+        tabs = [(np.arange(shape[nd - 1 - p]) * (p + 2.0) + 10 * p) * u.m for p in range(nd)]
+        return QuantityTableCoordinate(*tabs, names=[f"t{p}" for p in range(nd)],
+                                       physical_types=[f"custom:t{p}" for p in range(nd)]).wcs
+    if kind == "wrapped":
+        # an already wrapped WCS: a resampled linear FITS WCS behind a high-level wrapper
+        from astropy.wcs.wcsapi import HighLevelWCSWrapper
+        from ndcube.wcs.wrappers import ResampledLowLevelWCS
+        return HighLevelWCSWrapper(ResampledLowLevelWCS(lin_wcs(nd), 2, 0.5))
     w = WCS(naxis=nd)
     if kind == "tan":          # coupled celestial pair on pixel axes 0,1 (+ WAVE, TIME)
         ct = ['HPLN-TAN', 'HPLT-TAN', 'WAVE', 'TIME'][:nd]
